@@ -60,9 +60,10 @@ def _run_text(conn_a, conn_b, case):
     cls = DictCursor if case["cls"] == "dict" else SnowflakeCursor
     for c in (conn_a, conn_b):
         c.cursor().execute("create or replace table t (id int, v varchar)")
+        c.cursor().execute("set usd = 5")
     # real
     try:
-        curs = conn_a.execute_string(case["text"], cursor_class=cls, return_cursors=case["rc"])
+        curs = conn_a.execute_string(case["text"], remove_comments=case.get("rm", False), cursor_class=cls, return_cursors=case["rc"])
         real = [_rows(c, case["cls"]) for c in curs]
         real_exc = None
     except Exception as e:  # noqa: BLE001
@@ -117,6 +118,8 @@ NOP_CMDS = [("call foo()", None), (" CALL foo()", None), ("CaLl foo(1, 'a;b')", 
             ("comment on table t is 'c4'", None),
             # phase order: the patterns see the command after variable inlining; an undefined reference raises first
             ("select $nv", None), ("call foo($nv)", None), ("call foo($undefined_zz)", None), ("$kw foo()", None)]
+NOP_QCMDS = [("call foo(?)", ("x",)), ("call foo(?, ?)", ("x", 2)), ("select ?", ("x",)), ("insert into t values (?, ?)", (7, "q")), ("create stage s url = ?", ("u",)),
+             ("grant select on t to role ?", ("r",))]      # executed on a connection made under paramstyle qmark
 NOP_TEXTS = ["call foo(); select 1", " call foo()", "-- c\ncall foo()", "insert into t values (5, 'a;b'); select 'x'; /* skip */ select 3", "select 2; drop table t2; select 'x'",
              "create stage s; insert into t values (6, 'q')", "call foo(); grant select on t to role r", "alter session set query_tag = 'x'; select 1"]
 
@@ -156,6 +159,20 @@ def _run_nop(pats):
             _reset(conn)
             try:
                 r = [("rows", [[canon(c) for c in row] for row in c.fetchall()], None, c.rowcount) for c in conn.execute_string(text)]
+            except Exception as e:  # noqa: BLE001
+                r = _err(e)
+            out.append((r, before[False], _state(conn, False)))
+        sc.paramstyle = "qmark"
+        try:
+            qconn = sc.connect(database="d", schema="s")
+        finally:
+            sc.paramstyle = "pyformat"
+        for cmd, params in NOP_QCMDS:
+            _reset(conn)
+            cur = qconn.cursor()
+            try:
+                cur.execute(cmd, params)
+                r = ("rows", [[canon(c) for c in row] for row in cur.fetchall()], [d.name for d in cur.description], cur.rowcount)
             except Exception as e:  # noqa: BLE001
                 r = _err(e)
             out.append((r, before[False], _state(conn, False)))
@@ -211,7 +228,7 @@ def _worker(shard):
 
 # ------------------------------------------------------------------------------------------------
 def _judge_text(chk, case, res, count_rep, run_rep):
-    desc = {"kind": "text", "text": case["text"], "stmts": case["stmts"], "flags": case["flags"], "cls": case["cls"], "rc": case["rc"],
+    desc = {"kind": "text", "rm": case.get("rm", False), "oracle": case.get("oracle", True), "text": case["text"], "stmts": case["stmts"], "flags": case["flags"], "cls": case["cls"], "rc": case["rc"],
             "effects": case["effects"], "tbl_ops": case["tbl_ops"], "final": case["final"], "finish": case.get("finish", "rollback")}
     chk.case(("text", case["text"], case["cls"], case["rc"]), nontrivial=len(case["stmts"]) > 1)
     chk.count("texts")
@@ -220,8 +237,11 @@ def _judge_text(chk, case, res, count_rep, run_rep):
     flags = case["flags"]
     nbad = next((i for i, f in enumerate(flags) if f != "o"), None)
     # specification from the generator's knowledge: results of the statements before the first bad one, table after them
-    want_results = [(e[0], e[1]) for e in case["effects"][: nbad if nbad is not None else len(flags)]]
+    want_results = [(e[0], e[1]) for e in case["effects"][: nbad if nbad is not None else len(flags)] if e is not None]
     want_table, want_table2 = _spec_table(case, nbad)
+    if not case.get("oracle", True):
+        want_results, want_table, want_table2 = [(r[0], r[1]) for r in res["twin"]], res["twin_table"], res["twin_table2"]
+        chk.count("texts:twin-only-oracle")
     problems = []
     real_res = None if res["real"] is None else [(r[0], r[1]) for r in res["real"]]
     if nbad is None:
@@ -256,13 +276,18 @@ def _judge_text(chk, case, res, count_rep, run_rep):
             chk.violation(f"model oneByOne applies {spec[0]} statements, expected {nbad}", desc, broken="C16_stops_at_first_failure (model)", failing_input=False)
         chk.count("held")
         return
-    what = f"execute_string({case['text']!r}, cursor_class={case['cls']}, return_cursors={case['rc']}): " + "; ".join(problems)
+    what = f"execute_string({case['text']!r}, remove_comments={case.get('rm', False)}, cursor_class={case['cls']}, return_cursors={case['rc']}): " + "; ".join(problems)
     if run_rep["finding"] != "-":
         impl = run_rep["impl"].split(",")
         # prediction of the model of the code: nothing applied, no cursors, a parse-time error
         if int(impl[0]) == 0 and res["real_table"] == [] and res["real_table2"] == [] and res["real_exc"] is not None and res["real_exc"][1] in ("ParseError", "TokenError"):
             chk.finding(run_rep["finding"], what, desc)
             return
+    if count_rep.get("rawref") == "1" and not case.get("oracle", True) and res["real_exc"] == res["twin_exc"]:
+        # a `$$` string with `$word` text: the two paths show the variable phase different spellings of it (no finer prediction is
+        # made than "both end the same way — to the end, or with the same error —, results/tables differ")
+        chk.finding("C16/dollar-string-rerender-exposes-reference", what, desc)
+        return
     chk.violation(what, desc, broken="C16_exec_string_partial/C16_stops_at_first_failure/C16_literal_roundtrip (twin-instance comparison)")
 
 
@@ -297,11 +322,11 @@ def _spec_table(case, nbad):
 
 def _judge_nop(chk, pats, with_opt, without_opt):
     import sqlglot
-    cmds = [(c, p, "execute") for c, p in NOP_CMDS] + [(t, None, "execute_string") for t in NOP_TEXTS]
+    cmds = [(c, p, "execute") for c, p in NOP_CMDS] + [(t, None, "execute_string") for t in NOP_TEXTS] + [(c, p, "execute_q") for c, p in NOP_QCMDS]
     lines, metas = [], []
     for cmd, params, how in cmds:
-        if how == "execute":
-            text = _inlined(cmd, params)
+        if how in ("execute", "execute_q"):
+            text = _inlined(cmd, params if how == "execute" else None)      # qmark: the values stay values, the text is the command
             vec = [bool(re.match(p, text, re.IGNORECASE)) for p in (pats or [])]
             lines.append(f"split\tnop\t{1 if pats is not None else 0}\t" + enc_list(["1" if v else "0" for v in vec]))
             metas.append([text])
@@ -322,7 +347,7 @@ def _judge_nop(chk, pats, with_opt, without_opt):
                 chk.violation(f"nop_regexes={pats}: `{cmd}` references an undefined session variable: it must raise ProgrammingError and change nothing "
                               f"(whether or not a pattern matches), got {_short(r)}", case, broken="C16_prepare_error_before_nop")
             continue
-        if how == "execute":
+        if how in ("execute", "execute_q"):
             if decisions[0]:
                 ok = r[0] == "rows" and r[1] == [OK] and r[2] == ["status"]
                 # no effect: the tables are what they were before the command — compare with the state before, which is the state after the previous command
@@ -377,7 +402,7 @@ def _nop_effects(chk, pats, with_opt, without_opt):
 
 def gen_cases(chk):
     rnd = random.Random(chk.seed)
-    n = 400 if chk.tier == "quick" else 8000
+    n = 220 if chk.tier == "quick" else 8000
     cases = []
     for k in range(n):
         force = None if k % 5 < 3 else ("f" if k % 5 == 3 else "p")
@@ -413,6 +438,8 @@ def _gen(rnd, tid, force):
     stmts, flags, effects, tbl_ops = [], [], [], []
     n = rnd.randint(1, 7)
     bad_at = rnd.randrange(n) if force else None
+    dollar = force is None and rnd.random() < 0.12
+    bad_seen = False
     tx = rnd.random() < 0.35        # the text opens a transaction (and maybe leaves it open, also at a failure)
     if tx:
         n += 1
@@ -442,6 +469,18 @@ def _gen(rnd, tid, force):
                 break
             continue
         ids = list(table)
+        if dollar and k < 0.5:
+            # `$name` inside a `$$` string / a literal: whatever the variable phase does with it (C15's recorded finding), it must do
+            # the same through execute_string and one by one — judged against the twin only
+            body = rnd.choice(["price in $usd", "$usd", "a $USD b -- c", "cost $zz9"])
+            i = tid * 100 + j
+            stmts.append(rnd.choice([f"insert into t values ({i}, $${body}$$)", f"select $${body}$$, 1", f"insert into t (id, v) values ({i}, '{body}')"]))
+            flags.append("f" if "zz9" in body else "o")
+            effects.append(None)
+            tbl_ops.append(None)
+            if "zz9" in body:
+                bad_seen = True
+            continue
         if k < 0.45 or not ids:
             i, s = tid * 100 + j, lit_value(rnd)
             stmts.append(f"{rnd.choice(['insert into', 'INSERT INTO', 'Insert  Into'])} t {rnd.choice(['', '(id, v) '])}values ({i}, {lit(s, rnd)})")
@@ -479,7 +518,7 @@ def _gen(rnd, tid, force):
             tbl_ops.append(None)
         flags.append("o")
     stmts = [both_sides(x, rnd) for x in stmts]
-    bom = force is None and not tx and rnd.random() < 0.04
+    bom = force is None and not tx and not dollar and rnd.random() < 0.04
     if bom:
         # a byte order mark at the very start of the text is not white space for the tokenizer: the first statement does not parse —
         # through execute_string and one by one alike (nothing is executed either way)
@@ -493,7 +532,7 @@ def _gen(rnd, tid, force):
             parts.append(rnd.choice(SEPS))
     parts.append("" if stmts[-1] == "select 'unterminated" else rnd.choice(TAILS))
     return {"kind": "text", "tid": tid, "text": "".join(parts), "stmts": stmts, "flags": "".join(flags), "effects": effects, "tbl_ops": tbl_ops,
-            "final": sorted(table.items()), "cls": rnd.choice(["tuple", "tuple", "dict"]), "rc": rnd.random() < 0.9, "finish": rnd.choice(["commit", "rollback"])}
+            "final": sorted(table.items()), "cls": rnd.choice(["tuple", "tuple", "dict"]), "rc": rnd.random() < 0.9, "finish": rnd.choice(["commit", "rollback"]), "rm": rnd.random() < 0.4, "oracle": not dollar}
 
 
 def _execute(chk, cases):
